@@ -290,6 +290,26 @@ func c18Targets(rng *rand.Rand) []string {
 		`select ?a from ?g where { ?a ID ?i TYPE ?y "p"@[] ?o AS ?oo . /u<a> ?p AS ?pp ID ?pi ?x } after 2015-01-01T00:00:00Z ;`,
 		`select sum(?o) as ?s, ?a from ?g where { ?a "p"@[] ?o } group by ?a ;`,
 	}
+	// statements that repeat a name inside one list (ORDER BY / GROUP BY keys,
+	// projections, graphs): hooks that de-duplicate keep per-statement sets
+	base = append(base,
+		`select ?a, ?b from ?g where { ?a "p"@[] ?b } order by ?a, ?b, ?a ;`,
+		`select ?c, ?a from ?g where { ?a "p"@[] ?c } order by ?c desc, ?a, ?c desc ;`,
+		`select ?b, ?c from ?g where { ?b "p"@[] ?c } order by ?b asc, ?b asc, ?c ;`,
+		`select ?a, count(?b) as ?n from ?g where { ?a "p"@[] ?b } group by ?a order by ?n, ?a, ?n ;`,
+		`select ?a, ?a as ?b from ?g, ?g where { ?a "p"@[] ?c . ?a "p"@[] ?c } ;`,
+		`select ?a from ?g where { ?a "p"@[] ?b } having (?a = /u<a>) or (?a = /u<b>) and not ?b = ?a ;`,
+		`insert data into ?g, ?g { /u<a> "p"@[] /u<b> . /u<a> "p"@[] /u<b> } ;`,
+	)
+	// generated statements of every kind that a fresh semantic parser accepts
+	data := gen.AllTriples(c08Data)
+	for tries, n := 0, 0; tries < 400 && n < 40; tries++ {
+		t := gen.RandomStatement(rng, data)
+		if newSemantic().Parse(grammar.NewLLk(t, 1), &semantic.Statement{}) == nil {
+			base = append(base, t)
+			n++
+		}
+	}
 	return base
 }
 
@@ -379,7 +399,7 @@ func init() {
 	register(&rt.Check{
 		ID:    "C18",
 		Level: "exploration",
-		Rule: "(a) sentences derived at random from the exported grammar table, (b) their single-token mutations (delete, insert, replace, swap, extra tokens after the final ';'), (c) every token sequence up to length L over the 55 token kinds (L=3 quick, 4 thorough; complete), rendered to text and judged on the kinds the real lexer returns (sequences the lexer cannot produce are skipped as unrealisable); (d) target statements of all eight kinds parsed on a reused Parser after 1-4 earlier statements (accepted, truncated at every token position, token-replaced); " +
+		Rule: "(a) sentences derived at random from the exported grammar table, (b) their single-token mutations (delete, insert, replace, swap, extra tokens after the final ';'), (c) every token sequence up to length L over the 55 token kinds (L=3 quick, 4 thorough; complete), rendered to text and judged on the kinds the real lexer returns (sequences the lexer cannot produce are skipped as unrealisable); (d) target statements of all eight kinds (hand-written ones incl. lists that repeat a name, and 40 generated ones per shard) parsed on a reused Parser after 1-4 earlier statements (accepted, truncated at every token position, token-replaced); " +
 			"oracle: an independent table interpreter with explicit end-of-input for accept/reject, SemanticBQL accepts => BQL accepts and derivable, and an accessor-level meaning fingerprint equal to that on a fresh parser; non-trivial = accepted or rejected after >=3 tokens; (d) an earlier statement was rejected inside a clause; distinct by kind sequence / history",
 		Assume: []string{"the reference recogniser uses the same greedy predictive choice the property describes", "fingerprint covers every exported accessor of semantic.Statement"},
 		Floor:  2000,
